@@ -47,11 +47,27 @@ def comb_fn(cname, name, **kw):
     return lambda: Fn(cname, TU_C, name, select=inst, **dict(COMB_A, **kw))
 
 
+TENS = r'(nano::)?tensor_(mem_)?t<[^|]*long, 1>'
+CTOR_CALLS = [(r'^ctor\|' + TENS + r'\|void \(const ', 'nv_dig_copy({&0})'),
+              (r'^ctor\|' + TENS + r'\|void \((const )?(long|nano::tensor_size_t)\)', 'nv_dig_new({0})'), (r'^product\|', 'nv_comb_product({&0})')]
+CTOR_MEMBERS = [(r'^size\|.*tensor', '({self}->n)'), (r'^zero\|.*tensor', 'nv_dig_zero({self})')]
+
+
+def ctor_fn():
+    return Fn('comb_ctor', TU_C, 'combinatorial_iterator_t', kinds=('CXXConstructorDecl',), **dict(COMB_A, calls=CTOR_CALLS, members=CTOR_MEMBERS))
+
+
 def comb_targets(tier):
-    ts = [Target('comb_next', lambda: [comb_fn('comb_next', 'operator++')()], H_C, enforce='comb_next', cbmc_flags=CADICAL, loops=2,
+    ts = [Target('comb_ctor', lambda: [ctor_fn()], H_C, enforce='comb_ctor', cbmc_flags=CADICAL,
+                 note='the constructor establishes the representation invariant at the all-zero numeral'),
+          Target('comb_next', lambda: [comb_fn('comb_next', 'operator++')()], H_C, enforce='comb_next', cbmc_flags=CADICAL, loops=2,
                  note='operator++ from a combination that is not the last one: the digits of the successor numeral'),
           Target('comb_next_any', lambda: [comb_fn('comb_next_any', 'operator++')()], H_C, enforce='comb_next_any', cbmc_flags=CADICAL, loops=2,
                  note='operator++ from any valid state (also the last combination): index + 1, termination'),
+          # the same contract for EVERY state the constructor admits (counts >= 1, i.e. also all counts == 1): the termination
+          # obligations are refuted -- FINDING_comb_all_ones.md, known_findings.txt
+          Target('comb_next_all_ones', lambda: [comb_fn('comb_next_any', 'operator++')()], H_C, enforce='comb_next_any', cbmc_flags=CADICAL, loops=2,
+                 defines=['NV_MIN_COUNT_W=1'], note='operator++ without "some count >= 2": does not terminate when every count is 1'),
           Target('comb_valid', lambda: [comb_fn('comb_valid', 'operator bool', kinds=('CXXConversionDecl',))()], H_C, enforce='comb_valid', cbmc_flags=CADICAL),
           Target('comb_index', lambda: [comb_fn('comb_index', 'index')()], H_C, enforce='comb_index', cbmc_flags=CADICAL),
           Target('comb_size', lambda: [comb_fn('comb_size', 'size')()], H_C, enforce='comb_size', cbmc_flags=CADICAL),
@@ -102,3 +118,49 @@ def comb_lemmas():
            '(declare-const P Int)(declare-const N Int)\n(assert (and (= (* P W) N) (>= P 1) (>= W 1)))\n(assert (not (and (<= P N) (<= W N))))',
            f'every prefix product of the counts (the accumulator of product()) and every weight is <= N <= 2^62: no overflow'),
     ]
+
+
+def multiply_vcs():
+    """the lambda of combinatorial_iterator_t::product (back end B, Int with explicit overflow obligations): multiply(acc, val) == acc * val.
+    The accumulator of std::accumulate is a prefix product P(d), val a count c(d): P(d) >= 1, c(d) >= 1 and P(d) * c(d) = P(d+1) <= N <= 2^62
+    (comb_rank bound step)."""
+    from wplib import IdEnvWP, load, reach_vc
+    hdr = astload.REPO + '/include/nano/core/combinatorial.h'
+    docs, fn = load(TU_C, FLT_C, 'product', inst)
+    lams = astload.find_lambdas(fn)
+    if len(lams) != 1:
+        raise astload.ExtractionError(f'product(): {len(lams)} lambdas')
+    op = astload.lambda_call_operator(lams[0])
+    name = 'comb_multiply'
+    wp = IdEnvWP(name)
+    keys = [k for k, _ in wp.bind_params(op)]
+    if len(keys) != 2:
+        raise astload.ExtractionError(f'product() lambda: {len(keys)} parameters')
+    acc, val = [wp.fresh('Int', k, 'long') for k in keys]
+    wp.env[keys[0]], wp.env[keys[1]] = acc, val
+    wp.assume(f'(and (>= {acc.t} 1) (>= {val.t} 1) (<= (* {acc.t} {val.t}) {BOUND}))')
+    wp.post = lambda w, rv: [('multiply(acc, val) == acc * val (first parameter = accumulator, second = element: the fold is the product)',
+                              f'(= {rv.t} (* {acc.t} {val.t}))')]
+    wp.run(op, hdr)
+    if wp.returns == 0:
+        raise astload.ExtractionError(f'{name}: no return path')
+    vcs = wp.vcs(name, hdr, 'the accumulation step of product() multiplies, within the 2^62 bound')
+    vcs.append(reach_vc(wp, name, hdr))
+    # product() hands exactly this lambda, the whole range of `counts` and the initial value 1 to std::accumulate (read from clang's AST)
+    calls = [c for c in astload.walk(fn) if c.get('kind') == 'CallExpr' and
+             unwrap(c['inner'][0]).get('referencedDecl', {}).get('name') == 'accumulate']
+    ok = False
+    if len(calls) == 1 and len(calls[0]['inner']) == 5:
+        a = [unwrap(x) for x in calls[0]['inner'][1:]]
+
+        def rng(n, which):
+            return n.get('kind') == 'CallExpr' and unwrap(n['inner'][0]).get('referencedDecl', {}).get('name') == which and \
+                unwrap(n['inner'][1]).get('referencedDecl', {}).get('name') == 'counts'
+        init = [x for x in astload.walk(a[2]) if x.get('kind') == 'IntegerLiteral']
+        ok = rng(a[0], 'begin') and rng(a[1], 'end') and len(init) == 1 and init[0].get('value') == '1' and \
+            'tensor_size_t' in a[2].get('type', {}).get('qualType', '') + str(astload.node_source(a[2])) and \
+            any(x.get('kind') == 'DeclRefExpr' and x.get('referencedDecl', {}).get('name') == 'multiply' for x in astload.walk(calls[0]['inner'][4]))
+    vcs.append(VC('comb_product/product() == std::accumulate(begin(counts), end(counts), tensor_size_t{1}, multiply)',
+                  f'(assert (not {"true" if ok else "false"}))', about='whole range, initial value 1 of the accumulator type, the multiply lambda',
+                  source={'file': hdr}, group='comb_product'))
+    return vcs, [{'c_name': name, 'cxx': 'combinatorial_iterator_t::product#lambda0', 'file': hdr, 'line': op.get('loc', {}).get('line'), 'sha': astload.file_hash(hdr)}]
